@@ -3522,6 +3522,59 @@ pub fn suite_close(ctx: &mut Ctx) {
         ctx.count("close.astral_cases");
         close_case(ctx, &word, &refs, rng.below(5), cutoff);
     }
+    // every KIND of f32 as the cutoff (the property says "every cutoff"; the theorem quantifies over bit patterns): signed
+    // zeros, subnormals, values just around 0 / 0.5 / 1, negatives, values above 1, infinities, NaNs of both signs
+    let odd_cuts: [f32; 18] = [
+        -0.0, f32::MIN_POSITIVE, f32::from_bits(1), f32::from_bits(0x8000_0001), -f32::MIN_POSITIVE, -1.0, -0.5,
+        f32::from_bits(0x3eff_ffff), f32::from_bits(0x3f00_0001), f32::from_bits(0x3f7f_ffff), f32::from_bits(0x3f80_0001), 2.0,
+        f32::INFINITY, f32::NEG_INFINITY, f32::NAN, -f32::NAN, f32::from_bits(0x7f80_0001), f32::MAX,
+    ];
+    for (i, &cut) in odd_cuts.iter().enumerate() {
+        if !ctx.take() {
+            continue;
+        }
+        for (word, cands) in [("a", vec!["a"]), ("ab", vec!["ab", "a", "b", "", "zz"]), ("", vec!["", "a"]), ("abcd", vec!["abc", "abd", "xbcd", "dcba"])] {
+            for n in [0usize, 1, 2, 9] {
+                ctx.count("close.special_cutoff_cases");
+                close_case(ctx, word, &cands, n + i % 2, cut);
+            }
+        }
+    }
+    // words LONGER THAN A MACHINE WORD (65..320 characters) built from runs that start and stop on multiples of 32 / 64
+    // (what a bit-parallel matcher works in), against short candidates and against sub/supersequences
+    let nblock = if ctx.tier == Tier::Quick { 400u64 } else { 6000 };
+    for i in 0..nblock {
+        if !ctx.take() {
+            continue;
+        }
+        let mut rng = case_rng(ctx, 0xb10c, i);
+        let unit = [32usize, 64, 64, 64][rng.below(4)];
+        let letters = ['a', 'b', 'x', 'y', 'é'];
+        let mut word = String::new();
+        // a short lead shifts all later runs off (or onto) the block boundaries
+        for _ in 0..[0usize, 0, 1, 1, 2, 63][rng.below(6)] {
+            word.push(letters[rng.below(5)]);
+        }
+        for _ in 0..rng.range(2, 5) {
+            let c = letters[rng.below(5)];
+            let len = unit - [0usize, 0, 1][rng.below(3)];
+            for _ in 0..len {
+                word.push(c);
+            }
+            if rng.chance(1, 3) {
+                word.push(letters[rng.below(5)]);
+            }
+        }
+        let mut cands: Vec<String> = letters.iter().map(|c| c.to_string()).collect();
+        cands.push(letters.iter().take(rng.range(2, 5)).collect());
+        let sub: String = word.chars().filter(|_| rng.chance(1, 3)).collect();
+        cands.push(sub);
+        cands.push(mutate(&mut rng, &word, &letters));
+        let refs: Vec<&str> = cands.iter().map(|s| s.as_str()).collect();
+        let cutoff = if i % 2 == 0 { 0.0 } else { char_ratio(&word, refs[rng.below(refs.len())]) };
+        ctx.count("close.block_word_cases");
+        close_case(ctx, &word, &refs, 1 + rng.below(3), cutoff);
+    }
     // tiny ratios (thorough only): two candidates whose ratios differ below 2^-9
     if ctx.tier == Tier::Thorough {
         for (a, b) in [(200_000usize, 200_001usize), (150_000, 150_001)] {
